@@ -135,6 +135,10 @@ type Engine struct {
 	// it takes the connections to close, so that none is added behind its back.
 	wgListeners sync.WaitGroup
 
+	// set by Stop, under mux, before it takes the connections to close: a
+	// connection that is published behind that sweep closes itself.
+	stopping bool
+
 	// store std connections, for Windows only.
 	connsStd map[*Conn]struct{}
 
@@ -209,6 +213,7 @@ func (g *Engine) Stop() {
 	g.wgListeners.Wait()
 
 	g.mux.Lock()
+	g.stopping = true
 	conns := g.connsStd
 	g.connsStd = map[*Conn]struct{}{}
 	connsUnix := g.connsUnix
@@ -248,6 +253,16 @@ func (g *Engine) Stop() {
 
 	g.Wait()
 	logging.Info("NBIO[%v] stop", g.Name)
+}
+
+// isStopping reports whether Stop has taken, or is about to take, the
+// connections to close.
+//
+//go:norace
+func (g *Engine) isStopping() bool {
+	g.mux.Lock()
+	defer g.mux.Unlock()
+	return g.stopping
 }
 
 // Shutdown stops Engine gracefully with context.
